@@ -129,6 +129,17 @@ class CallMixin:
                 return
             raise Unsupported("class-level call %s.%s" % (cname, attr))
         ty = self.o.tyof(st, o)
+        if ty == "none":
+            yield from self.raise_new(st, "AttributeError")
+            return
+        if ty is None and o.e is not None and self.o.feasible(st, self.w.V.is_none(o.e)):
+            # the receiver may be None: AttributeError on that branch
+            a = st.clone()
+            a.assume(self.w.V.is_none(o.e))
+            yield from self.raise_new(a, "AttributeError")
+            st = st.clone()
+            st.assume(z3.Not(self.w.V.is_none(o.e)))
+            ty = self.o.tyof(st, o)
         if ty in ("str", "bytes"):
             m = self.STR_METHODS.get((ty, attr))
             if m is None:
@@ -181,6 +192,14 @@ class CallMixin:
         contract = reg.find(src, cls, name, after=after)
         if contract is not None and found is not None and contract.cls != found[0] and contract.cls in src.mro(found[0]):
             contract = None     # an override without a contract of its own: never use the overridden method's contract
+        if found is not None and found[1] == "property" and not is_property:
+            # `obj.prop(...)`: evaluate the property, then call its value
+            for st1, fv in self.call_method(st, recv, cls, name, [], {}, cx, is_property=True):
+                if isinstance(fv, Raise):
+                    yield st1, fv
+                else:
+                    yield from self.call_value(st1, fv, args, kwargs, cx)
+            return
         if found is None and contract is None and after is None and recv.e is not None and self.reg.attr_decl(src, cls, name):
             for st1, fv in self.getattr_(st, recv, name, cx):
                 if isinstance(fv, Raise):
@@ -264,6 +283,21 @@ class CallMixin:
         if t == "hashalg":
             yield from self.EXTERNALS["hashlib.new"](self, st, [fv] + args, kwargs, cx)
             return
+        V, w = self.w.V, self.w
+        isct = z3.And(V.is_cls(fv.e), w.subclass(V.c(fv.e), "ConfigType"))
+        if fv.e is not None and not t and self.o.feasible(st, isct):
+            br = st.clone()
+            br.assume(isct)
+            r = br.alloc + 1
+            br.alloc = r
+            br.assume(w.cls_of(r) == V.c(fv.e))
+            me = SV(V.ref(r), "ref:ConfigType")
+            for st1, out in self.call_method(br, me, "ConfigType", "__init__", args, kwargs, cx):
+                yield st1, (out if isinstance(out, Raise) else me)
+            st = st.clone()
+            st.assume(z3.Not(isct))
+            if not self.o.feasible(st):
+                return
         rest = st
         for cls in ("Schema", "ConfigTypeField"):
             isc = self.o.is_type(fv.e, "ref:" + cls)
